@@ -74,7 +74,7 @@ func run(k *report.Check, oracle string) {
 }
 
 func Run04(k *report.Check) {
-	k.Rule = rule("C04 oracle on the operators' input streams: every keyed event exactly once, at the operator that owns murmur3(key) mod g by the harness's own hash, same-split same-key order kept, every broadcast barrier/watermark cuts all streams consistently (a record's events are on the same side of it everywhere) and no record below the reported split position follows the barrier; with a time-out every event must have been delivered after a virtual 450 ms. non-trivial = distinct (configuration, schedule cost, stream contents)")
+	k.Rule = rule("C04 oracle on the operators' input streams: every keyed event exactly once, at the operator that owns murmur3(key) mod g by the harness's own hash, same-split same-key order kept, every broadcast barrier/watermark cuts all streams consistently (a record's events are on the same side of it everywhere) and no record below the reported split position follows the barrier; a watermark never precedes the record whose timestamp it was derived from (C11's oracle on the same streams); with a time-out every event must have been delivered after a virtual 450 ms. non-trivial = distinct (configuration, schedule cost, stream contents)")
 	k.Assumptions = []string{"the reader's end of input does not end the run in this code base: runs are judged after 450 ms of virtual time", "with MaxDelay 0 and MaxSize 2 a trailing partial batch stays queued by design: then only order and uniqueness are required"}
 	run(k, "C04")
 }
@@ -165,6 +165,9 @@ func body(c *mc.Ctx) {
 	switch p.oracle {
 	case "C04":
 		checkDelivery(c, cfg, obs)
+		// "watermarks never overtake records read before them": the value of a watermark names the
+		// record that made it, which must precede it in the streams (C11's source-runner oracle)
+		checkWatermarks(c, cfg, obs)
 	case "C11":
 		checkWatermarks(c, cfg, obs)
 	case "C16":
